@@ -3,7 +3,10 @@ package main
 import (
 	"bytes"
 	"fmt"
+	"go/ast"
 	"go/format"
+	goparser "go/parser"
+	"go/token"
 	"os"
 	"path/filepath"
 	"regexp"
@@ -56,8 +59,42 @@ func genNormalised(src string) (string, error) {
 	if err != nil {
 		return "", err
 	}
+	out, err = dropPlainComments(out)
+	if err != nil {
+		return "", err
+	}
 	// blank lines are layout of the embedded Go code (the formatter may attach a comment to the template that follows it)
 	return blankLinesRe.ReplaceAllString(lineColRe.ReplaceAllString(string(out), "Line: 0, Col: 0"), "\n"), nil
+}
+
+// dropPlainComments removes the comments of a Go file that are not compiler directives and prints it again: comments
+// are not part of the program ("the same program"), and gofmt rewrites the white space inside doc comments depending on
+// what they are attached to. Directives (//go:…, //line, // +build, //export) stay, in place.
+func dropPlainComments(src []byte) ([]byte, error) {
+	fset := token.NewFileSet()
+	f, err := goparser.ParseFile(fset, "", src, goparser.ParseComments)
+	if err != nil {
+		return nil, err
+	}
+	keep := []*ast.CommentGroup{} // non-nil: with a nil list the printer falls back to the comments attached to the nodes
+	for _, cg := range f.Comments {
+		var list []*ast.Comment
+		for _, c := range cg.List {
+			t := c.Text
+			if strings.HasPrefix(t, "//go:") || strings.HasPrefix(t, "//line ") || strings.HasPrefix(t, "// +build") || strings.HasPrefix(t, "//export ") {
+				list = append(list, c)
+			}
+		}
+		if len(list) > 0 {
+			keep = append(keep, &ast.CommentGroup{List: list})
+		}
+	}
+	f.Comments = keep
+	var b bytes.Buffer
+	if err := format.Node(&b, fset, f); err != nil {
+		return nil, err
+	}
+	return b.Bytes(), nil
 }
 
 var blankLinesRe = regexp.MustCompile(`\n(?:[ \t]*\n)+`)
@@ -182,6 +219,7 @@ var fmtFileSeeds = []string{
 
 var fmtSeeds = []string{
 	"{! leaf( s ) }",
+	"<small\n\t\tdata-m={\n\t\t\ts,/*\tc1\n c2  */\n\t\t}\n\t>x</small>",
 	"@leaf(s +\n\n\n\t\t`r1\nr2\n\tr3`)",
 	"{! leaf(s +\n\n\n\t\t`r1\nr2`) }",
 	"<p class={ \"btn\", s,\t// note\n\t}>x</p>",
@@ -319,6 +357,11 @@ func runFmt(e *emitter, tier string, seed uint64, prop string) {
 			src = strings.ReplaceAll(src, "\n", "\r\n")
 		}
 		do(src, "generated")
+		// the same file with its white space disturbed (the formatter normalises white space in many places, each with
+		// its own code): whatever `templ generate` still accepts is one more input
+		if !g.plain && i%3 == 0 {
+			do(wsPerturb(r, src), "perturbed")
+		}
 		for k, v := range g.counts {
 			agg[k] += v
 		}
@@ -326,4 +369,33 @@ func runFmt(e *emitter, tier string, seed uint64, prop string) {
 	for k, v := range agg {
 		e.counters["node:"+k] += v
 	}
+}
+
+// wsPerturb disturbs the white space of a template file below the prelude: runs of blanks and tabs for single spaces,
+// runs of empty lines, line comments that no space precedes, missing space after a comma.
+func wsPerturb(r *rng, src string) string {
+	start := 0
+	if i := strings.Index(src, "\ntempl "); i >= 0 && r.chance(3, 4) {
+		start = i // mostly leave the shared prelude alone (it is also exercised, less often)
+	}
+	var b strings.Builder
+	b.WriteString(src[:start])
+	rest := src[start:]
+	rate := 8 + r.intn(20)
+	for i := 0; i < len(rest); i++ {
+		c := rest[i]
+		switch {
+		case c == ' ' && strings.HasPrefix(rest[i:], " //") && r.chance(1, 3):
+			b.WriteString(r.pick([]string{"\t", ""}))
+		case c == ' ' && i > 0 && rest[i-1] == ',' && r.chance(1, rate):
+			// drop the space after a comma
+		case c == ' ' && r.chance(1, rate):
+			b.WriteString(r.pick([]string{"  ", "   ", "\t", " \t", "    ", "\t\t"}))
+		case c == '\n' && r.chance(1, rate+4):
+			b.WriteString(r.pick([]string{"\n\n", "\n\n\n", "\n \n", "\n\n\n\n"}))
+		default:
+			b.WriteByte(c)
+		}
+	}
+	return b.String()
 }
